@@ -507,7 +507,7 @@ def check_descriptor_roundtrip(chk, F):
             chk.fail(R, "unanalysable:" + key, "unanalysable: %s" % e, where=e.where, kind="unanalysable")
         except Panic as e:
             chk.fail(R, key, "panic while parsing / printing %r: %s" % (s[:80], e))
-    chk.floor(R, "descriptor texts round-tripped", n_ok, 40)
+    chk.floor(R, "descriptor texts round-tripped", n_ok, 35)
 
 
 SUGAR = [  # (sugared, plain) -- Miniscript specification, "syntactic sugar" table
